@@ -366,7 +366,7 @@ func c13Body() func(h []dsim.Rec) {
 					count("fault:unencodable-item")
 					dsim.Record("submit-bad", "", nil, int64(wi+1))
 					if cfg.version == 1 && dsim.Choose(2) == 0 {
-						e.node.WriteMessageAll(&hd.MessageVerifHi{X: 1}) //nolint: id 300 on a v1 link
+						e.node.WriteMessageAll(&hd.MessageVerifHi{X: 1}) //nolint: id 70000 on a v1 link
 					} else {
 						e.node.WriteMessageAll(&message.MessageRaw{ID: 9999, Payload: []byte{1, 2, 3}}) //nolint: id outside the dialect
 					}
@@ -567,7 +567,7 @@ func init() {
 		Rule: "one evaluation = one simulated deployment: a real node with 2..5 channels of which a drawn subset is sick (transport Write " +
 			"blocking forever / until a drawn instant / until the socket's write deadline, or failing once / permanently, from the k-th " +
 			"call on, k drawn in 1..30), 1..3 writers issuing 10..130 tagged writes each, unencodable items (raw id outside the dialect, " +
-			"id 300 on a v1 link) at drawn positions in 2/5 of the runs, inbound traffic on every channel; distinct = distinct schedule " +
+			"id 70000 on a v1 link) at drawn positions in 2/5 of the runs, inbound traffic on every channel; distinct = distinct schedule " +
 			"hash + history digest; non-trivial = at least two tasks interleaved and a write fault or an unencodable item actually fired",
 		Nontrivial: func(r *dsim.Result) bool {
 			return r.Interleave > 0 && (r.Probes["fault:write-block"]+r.Probes["fault:write-error"]+r.Probes["fault:write-timeout"]+r.Probes["fault:unencodable-item"] > 0)
